@@ -1098,6 +1098,26 @@ example :
       cntTrue (floodRun [3, 3] nb 20 av [[0, 0]]).2.2.2.2, (floodRun [3, 3] nb 3 av [[0, 0]]).2.1) = (true, 7, 0, false) := by
   decide
 
+
+/-- **C10, `remove_fake_regmin_max` (behind `regmax` / `regmin`): the whole scan with its floods.** For every shape (any rank), every
+neighbourhood, every initial marking (what `locmin_max` left in the zero-filled result) and EVERY outcome of the value tests on
+the neighbours (`witness`): over all positions of the image in scan order — the iterator's positions, inside by construction
+(`C10_unravel_inside`) — every `f.at(pos)`, every neighbour probe `regmin.at(npos)` / `f.at(npos)` (behind `validposition`), and
+every dereference of every flood started at a marked pixel with a witness is inside the array, and EVERY flood drains its stack
+(within `1 + #marked` pops: `C10_stack_flood_in_bounds`), so the function returns. -/
+theorem C10_regmin_max_in_bounds (shape : List Nat) (nb : List (List Int)) (witness : List Int → Array Bool → Bool)
+    (av : Array Bool) :
+    pAllOk (regScan shape nb witness (allPos shape) av).1 = true ∧ (regScan shape nb witness (allPos shape) av).2.1 = true := by
+  apply regScan_ok
+  intro p hp
+  simp only [allPos, List.mem_map, List.mem_range] at hp
+  obtain ⟨i, hi, rfl⟩ := hp
+  exact C10_unravel_inside shape i hi
+
+/-- non-vacuity: a 2×3 plateau, all marked, the first pixel has a witness: one flood clears everything (6 probes + flood accesses) -/
+example : (regScan [2, 3] [[-1, 0], [0, -1], [0, 1], [1, 0]] (fun p _ => p == [0, 0]) (allPos [2, 3])
+    #[true, true, true, true, true, true]).2 = (true, #[false, false, false, false, false, false]) := by decide +kernel
+
 /-- **C10, `close_holes` as `C14.closeHoles` runs it.** For every well-formed image (`data.size = ∏ shape`, any rank) and every
 neighbourhood: the fuel `C14.closeHoles` passes to the flood (`size + #seeds + 1`) drains the stack — so the C14 correctness
 theorems speak about a flood that has really ended — and every position the flood dereferences is inside the array. -/
